@@ -273,15 +273,7 @@ func (f *fileInst) stmt(s ast.Stmt) {
 		}
 		return
 	case *ast.SelectStmt:
-		f.stats["select"]++
-		site := f.site(st.Pos())
-		f.insert(f.beforePos, fmt.Sprintf("zzsimrt.Yield(%q); ", site), 1)
-		for _, c := range st.Body.List {
-			cc := c.(*ast.CommClause)
-			// Resume at the start of each clause body
-			f.insert(cc.Colon+1, fmt.Sprintf(" zzsimrt.Resume(%q); ", site), 1)
-			f.stmtList(cc.Body)
-		}
+		f.selectStmt(st)
 		return
 	case *ast.SendStmt:
 		f.stats["chan_send"]++
@@ -295,6 +287,102 @@ func (f *fileInst) stmt(s ast.Stmt) {
 	_, isReturn := s.(*ast.ReturnStmt)
 	f.wrap(s, info, !isReturn)
 	f.funcLitsIn(s)
+}
+
+// selectStmt turns a select into a tape-driven choice (see simrt/select.go):
+//
+//	select { case x := <-c1: B1; case c2 <- v: B2; default: D }
+//	=> { zzsN_0 := c1; zzsN_1 := c2; zzsN_1v := v; zziN, zzrN := zzsimrt.Select(site, true, RecvCase(zzsN_0), SendCase(zzsN_1, zzsN_1v)); _ = zzrN
+//	     switch zziN { case 0: x := <-zzsimrt.Relay(zzsN_0, zzrN); B1; case 1: B2; case -1: D } }
+//
+// `break` inside a clause leaves the switch exactly as it left the select; a label stays on the
+// switch.
+func (f *fileInst) selectStmt(st *ast.SelectStmt) {
+	f.stats["select"]++
+	f.seq++
+	n := f.seq
+	site := f.site(st.Pos())
+	before := f.beforePos
+	var pro strings.Builder
+	var caseArgs []string
+	hasDefault := false
+	idx := 0
+	type clauseEdit struct {
+		cc   *ast.CommClause
+		head string
+	}
+	var clauses []clauseEdit
+	for _, c := range st.Body.List {
+		cc := c.(*ast.CommClause)
+		if cc.Comm == nil {
+			hasDefault = true
+			clauses = append(clauses, clauseEdit{cc, "default:"})
+			continue
+		}
+		chVar := fmt.Sprintf("zzs%d_%d", n, idx)
+		head := fmt.Sprintf("case %d:", idx)
+		switch comm := cc.Comm.(type) {
+		case *ast.SendStmt:
+			fmt.Fprintf(&pro, "%s := %s; ", chVar, f.text(comm.Chan))
+			if id, ok := comm.Value.(*ast.Ident); ok && id.Name == "nil" {
+				caseArgs = append(caseArgs, fmt.Sprintf("zzsimrt.SendCase(%s, nil)", chVar))
+			} else {
+				fmt.Fprintf(&pro, "%sv := %s; ", chVar, f.text(comm.Value))
+				caseArgs = append(caseArgs, fmt.Sprintf("zzsimrt.SendCase(%s, %sv)", chVar, chVar))
+			}
+		case *ast.ExprStmt:
+			// case <-ch:
+			ue, ok := comm.X.(*ast.UnaryExpr)
+			if !ok {
+				f.stats["select_unknown_form"]++
+				return
+			}
+			fmt.Fprintf(&pro, "%s := %s; ", chVar, f.text(ue.X))
+			caseArgs = append(caseArgs, fmt.Sprintf("zzsimrt.RecvCase(%s)", chVar))
+		case *ast.AssignStmt:
+			// case x := <-ch:   case x, ok = <-ch:
+			if len(comm.Rhs) != 1 {
+				f.stats["select_unknown_form"]++
+				return
+			}
+			ue, ok := comm.Rhs[0].(*ast.UnaryExpr)
+			if !ok {
+				f.stats["select_unknown_form"]++
+				return
+			}
+			fmt.Fprintf(&pro, "%s := %s; ", chVar, f.text(ue.X))
+			caseArgs = append(caseArgs, fmt.Sprintf("zzsimrt.RecvCase(%s)", chVar))
+			var lhs []string
+			for _, l := range comm.Lhs {
+				lhs = append(lhs, f.text(l))
+			}
+			head += fmt.Sprintf(" %s %s <-zzsimrt.Relay(%s, zzr%d);", strings.Join(lhs, ", "), comm.Tok.String(), chVar, n)
+			// variables declared by the comm clause may be unused in the body only if they were
+			// unused before too (then the original would not compile): nothing to do
+		default:
+			f.stats["select_unknown_form"]++
+			return
+		}
+		clauses = append(clauses, clauseEdit{cc, head})
+		idx++
+	}
+	open := fmt.Sprintf("{ %szzi%d, zzr%d := zzsimrt.Select(%q, %v", pro.String(), n, n, site, hasDefault)
+	for _, a := range caseArgs {
+		open += ", " + a
+	}
+	open += fmt.Sprintf("); _ = zzr%d; ", n)
+	f.insert(before, open, 1)
+	// `select {`  ->  `switch zziN {`
+	f.replace(st.Pos(), st.Body.Lbrace+1, fmt.Sprintf("switch zzi%d {", n))
+	for _, ce := range clauses {
+		f.replace(ce.cc.Pos(), ce.cc.Colon+1, ce.head)
+		f.stmtList(ce.cc.Body)
+	}
+	if !hasDefault {
+		// keeps the switch a terminating statement when every clause terminates (as the select was)
+		f.insert(st.Body.Rbrace, " default: panic(\"zzsimrt: select returned an unknown case\"); ", 9)
+	}
+	f.insert(st.End(), " }", 9)
 }
 
 func (f *fileInst) elseChain(e ast.Stmt) {
